@@ -6,13 +6,11 @@ package interp
 
 import (
 	"bytes"
-	"sort"
 	"fmt"
 	"go/constant"
 	"go/token"
 	"go/types"
 	"os"
-	"reflect"
 	"strings"
 	"unsafe"
 
@@ -260,10 +258,7 @@ func zero(t types.Type) value {
 	case *types.Chan:
 		return chan value(nil)
 	case *types.Map:
-		if usesBuiltinMap(t.Key()) {
-			return map[value]value(nil)
-		}
-		return (*hashmap)(nil)
+		return (*omap)(nil)
 	case *types.Signature:
 		return (*ssa.Function)(nil)
 	}
@@ -319,31 +314,8 @@ func slice(x, lo, hi, max value) value {
 // lookup returns x[idx] where x is a map.
 func lookup(instr *ssa.Lookup, x, idx value) value {
 	switch x := x.(type) { // map or string
-	case map[value]value, *hashmap:
-		var v value
-		var ok bool
-		switch x := x.(type) {
-		case map[value]value:
-			if ss, isss := idx.(symstr); isss {
-				// compare against every concrete key (deterministic order)
-				keys := make([]string, 0, len(x))
-				for k := range x {
-					keys = append(keys, k.(string))
-				}
-				sort.Strings(keys)
-				for _, k := range keys {
-					if truth(strBinop(token.EQL, ss, k)) {
-						v, ok = x[k], true
-						break
-					}
-				}
-				break
-			}
-			v, ok = x[idx]
-		case *hashmap:
-			v = x.lookup(idx.(hashable))
-			ok = v != nil
-		}
+	case *omap:
+		v, ok := x.lookup(idx)
 		if !ok {
 			v = zero(instr.X.Type().Underlying().(*types.Map).Elem())
 		}
@@ -846,10 +818,8 @@ func eqnil(t types.Type, x, y value) bool {
 		// Since these types don't support comparison,
 		// one of the operands must be a literal nil.
 		switch x := x.(type) {
-		case *hashmap:
-			return (x != nil) == (y.(*hashmap) != nil)
-		case map[value]value:
-			return (x != nil) == (y.(map[value]value) != nil)
+		case *omap:
+			return (x != nil) == (y.(*omap) != nil)
 		case *ssa.Function:
 			switch y := y.(type) {
 			case *ssa.Function:
@@ -1054,10 +1024,8 @@ func callBuiltin(caller *frame, callpos token.Pos, fn *ssa.Builtin, args []value
 
 	case "delete": // delete(map[K]value, K)
 		switch m := args[0].(type) {
-		case map[value]value:
-			delete(m, args[1])
-		case *hashmap:
-			m.delete(args[1].(hashable))
+		case *omap:
+			m.delete(args[1])
 		default:
 			panic(fmt.Sprintf("illegal map type: %T", m))
 		}
@@ -1090,9 +1058,7 @@ func callBuiltin(caller *frame, callpos token.Pos, fn *ssa.Builtin, args []value
 			return len((*x).(array))
 		case []value:
 			return len(x)
-		case map[value]value:
-			return len(x)
-		case *hashmap:
+		case *omap:
 			return x.len()
 		case chan value:
 			return len(x)
@@ -1176,10 +1142,8 @@ func callBuiltin(caller *frame, callpos token.Pos, fn *ssa.Builtin, args []value
 
 func rangeIter(x value, t types.Type) iter {
 	switch x := x.(type) {
-	case map[value]value:
-		return &mapIter{iter: reflect.ValueOf(x).MapRange()}
-	case *hashmap:
-		return &hashmapIter{iter: reflect.ValueOf(x.entries()).MapRange()}
+	case *omap:
+		return newMapIter(x)
 	case symstr:
 		return &symstrIter{cells: x}
 	case string:
